@@ -10,7 +10,7 @@ AS = 'mystic/abstract_solver.py'
 A = AS + '::AbstractSolver'
 
 
-@contract('C06/AbstractSolver.__load_state', ['C06'], A + '._AbstractSolver__load_state', native=False)
+@contract('C06/AbstractSolver.__load_state', ['C06', 'C04'], A + '._AbstractSolver__load_state', native=False)
 def load_state(h):
     """source attributes: population (a list), popEnergy, _live (any boolean), _fcalls, _stepmon, generations-relevant
     private state; target: a fresh instance with stale values for some of them and one attribute the source lacks;
